@@ -380,11 +380,14 @@ def run_config(ctx, rep, cfg):
 
 
 def run(ctx, rep):
-    rep.assume("not decided: linearity of the TK1 schedule (xor-out/xor-in equals a fresh schedule) and conformance of the tweaked cipher with the specification",
-               "recognised shadow-tweak variant: {copy old; rewrite field; xor(old copy); xor(field)}; any other shape is reported as not modelled, never as a violation")
+    rep.assume("not decided: conformance of the tweaked cipher with the specification (values of the S-box, LFSR and permutation tables)",
+               "the TK1 part of the schedule is treated as linear in TK1: decided for the xor pass (every schedule word is xored with tweakey bits only, walked like the TK1 setter)")
+    from . import affine_rules
     for cfg in ctx.configs():
         nst, nctr = run_config(ctx, rep, cfg)
+        nwalk = affine_rules.check_pass_walk(ctx, rep, cfg)
         if cfg is None:
+            rep.floor("C04.R1", "xor passes compared with their TK1 setter (GF(2) maps)", nwalk, 2)
             rep.floor("C04.R1", "core set_tweak functions", nst, 2)
             rep.floor("C04.R4", "CTR tweak entry points over all back ends", nctr, 10)
         else:
